@@ -35,9 +35,26 @@ type C14Scenario struct {
 	TailRows  sqlfake.Result `json:"tail_rows"`
 	Sched     []byte         `json:"sched"`
 	// TailMidnight: the tail starts two seconds before a UTC date change (plans carry date bounds for partition pruning)
-	TailMidnight bool   `json:"tail_midnight,omitempty"`
-	SchedSeed    uint64 `json:"sched_seed"`
-	Preempt      int64  `json:"preempt,omitempty"` // see simrt.SetPreempt
+	TailMidnight bool `json:"tail_midnight,omitempty"`
+	// time of day: the subject's range starts SubjectTodS seconds after midnight UTC; the translations after the history
+	// are made for the range moved by HistShiftDays whole days, and history request i is moved to that day at HistTodS[i]
+	SubjectTodS   int64   `json:"subject_tod_s,omitempty"`
+	HistShiftDays int64   `json:"hist_shift_days,omitempty"`
+	HistTodS      []int64 `json:"hist_tod_s,omitempty"`
+	// DayBase moves every request of the run by that many days. It is not drawn: each run of a worker process gets days no
+	// earlier run of the process has used (NextDayBase), so that a run is judged on what it did itself even when the server
+	// keeps state per calendar day across requests; the value is part of the replay file.
+	DayBase   int64  `json:"day_base,omitempty"`
+	SchedSeed uint64 `json:"sched_seed"`
+	Preempt   int64  `json:"preempt,omitempty"` // see simrt.SetPreempt
+}
+
+var dayCounter int64
+
+// NextDayBase returns a block of four days that no earlier run of this process has touched.
+func NextDayBase() int64 {
+	dayCounter++
+	return (dayCounter % 500000) * 4
 }
 
 func genC14(rt *rapid.T) C14Scenario {
@@ -65,6 +82,12 @@ func genC14(rt *rapid.T) C14Scenario {
 	nh := rapid.IntRange(0, 4).Draw(rt, "nh")
 	for i := 0; i < nh; i++ {
 		s.History = append(s.History, genReq(rt, fmt.Sprintf("h%d", i), false))
+	}
+	tods := []int64{0, 0, 600, 1799, 1800, 1801, 2700, 43200, 86400 - 120}
+	s.SubjectTodS = rapid.SampledFrom(tods).Draw(rt, "subject.tod")
+	s.HistShiftDays = rapid.SampledFrom([]int64{0, 0, 1, 2}).Draw(rt, "hist.days")
+	for i := 0; i < nh; i++ {
+		s.HistTodS = append(s.HistTodS, rapid.SampledFrom(tods).Draw(rt, fmt.Sprintf("h%d.tod", i)))
 	}
 	np := rapid.IntRange(0, 3).Draw(rt, "np")
 	for i := 0; i < np; i++ {
@@ -133,14 +156,86 @@ func canonPortion(q string) string {
 	return q
 }
 
-func canonList(stmts []*sqlfake.Stmt) []string {
+func canonList(stmts []*sqlfake.Stmt, r Req) []string {
 	var res []string
+	ref, ok := startDay(r)
 	for _, s := range stmts {
 		if s.Class == "data" {
-			res = append(res, canon(s.SQL))
+			q := s.SQL
+			if ok {
+				// a date bound (partition pruning) is a function of the request's own time range: it is kept, as a number
+				// of days relative to the day the range starts on, so that a request moved by whole days has to give the
+				// same text
+				q = reDayLit.ReplaceAllStringFunc(q, func(m string) string {
+					d, err := time.Parse("2006-01-02", strings.Trim(m, "'"))
+					if err != nil {
+						return m
+					}
+					return fmt.Sprintf("'DAY%+d'", d.Unix()/86400-ref)
+				})
+			}
+			res = append(res, canon(q))
 		}
 	}
 	return res
+}
+
+var reDayLit = regexp.MustCompile(`'[0-9]{4}-[0-9]{2}-[0-9]{2}'`)
+
+// reqTime reads a time parameter the way the endpoints do: seconds or nanoseconds since the epoch.
+func reqTime(v string) (int64, bool) {
+	n, err := strconv.ParseInt(v, 10, 64)
+	if err != nil || n <= 0 {
+		return 0, false
+	}
+	if len(v) >= 16 {
+		return n, true
+	}
+	return n * 1000000000, true
+}
+
+// agreed reports whether the harness and the endpoint read the value the same way: Prometheus and Tempo endpoints take
+// seconds, the others are sent nanoseconds (the profile endpoints get them converted to milliseconds).
+func agreed(r Req, v string) bool {
+	if _, ok := reqTime(v); !ok {
+		return false
+	}
+	if strings.HasPrefix(r.Kind, "prom") || r.Kind == "search" || strings.HasPrefix(r.Kind, "tag") {
+		return len(v) < 16
+	}
+	return len(v) >= 16
+}
+
+func startDay(r Req) (int64, bool) {
+	v := r.Start
+	if r.Kind == "query" || r.Kind == "prom_instant" {
+		v = r.Time // instant queries are evaluated at `time`
+	}
+	if !agreed(r, v) {
+		return 0, false
+	}
+	ns, _ := reqTime(v)
+	return ns / 1000000000 / 86400, true
+}
+
+// shiftReq moves the time range of a request by d.
+func shiftReq(r Req, d time.Duration) Req {
+	if d == 0 {
+		return r
+	}
+	for _, f := range []*string{&r.Start, &r.End, &r.Time} {
+		if !agreed(r, *f) || (f == &r.Time && r.Kind == "search") { // (search: Time is sent as maxDuration)
+			continue
+		}
+		n, _ := strconv.ParseInt(*f, 10, 64)
+		if len(*f) >= 16 {
+			n += int64(d)
+		} else {
+			n += int64(d / time.Second)
+		}
+		*f = strconv.FormatInt(n, 10)
+	}
+	return r
 }
 
 // process-wide memory of translations: the same request (kind, query, parameters, cluster) must yield
@@ -188,6 +283,8 @@ func c14body(ri *simcheck.RunInfo, s C14Scenario) {
 		ri.Violations = append(ri.Violations, &simcheck.Violation{Property: "C14", Oracle: oracle, Signature: sig, Detail: detail})
 	}
 	var first, afterHist, interleaved []string
+	base := time.Duration(s.DayBase) * 24 * time.Hour
+	subject := shiftReq(s.Subject, base+time.Duration(s.SubjectTodS)*time.Second)
 	aborted := false
 	byPosition := false
 	var tickSQL [][]string
@@ -196,13 +293,22 @@ func c14body(ri *simcheck.RunInfo, s C14Scenario) {
 	sim.Spawn("client", func() {
 		defer close(done)
 		// (a) first
-		st.client(sys, 0, []Req{s.Subject})
-		first = canonList(st.reqs[len(st.reqs)-1].Stmts)
+		st.client(sys, 0, []Req{subject})
+		first = canonList(st.reqs[len(st.reqs)-1].Stmts, subject)
 		byPosition = st.reqs[len(st.reqs)-1].ByPosition
-		// (b) after a history of other translations
-		st.client(sys, 0, s.History)
-		st.client(sys, 0, []Req{s.Subject})
-		afterHist = canonList(st.reqs[len(st.reqs)-1].Stmts)
+		// (b) after a history of other translations; both on another day when the scenario says so
+		day := time.Duration(s.HistShiftDays) * 24 * time.Hour
+		for i, h := range s.History {
+			h = shiftReq(h, base)
+			var tod int64
+			if i < len(s.HistTodS) {
+				tod = s.HistTodS[i]
+			}
+			st.client(sys, 0, []Req{shiftReq(h, day+time.Duration(tod)*time.Second)})
+		}
+		later := shiftReq(subject, day)
+		st.client(sys, 0, []Req{later})
+		afterHist = canonList(st.reqs[len(st.reqs)-1].Stmts, later)
 	})
 	select {
 	case <-done:
@@ -227,13 +333,13 @@ func c14body(ri *simcheck.RunInfo, s C14Scenario) {
 		n := len(st.reqs)
 		st.mu.Unlock()
 		_ = n
-		st.clientRec(sys, 1, s.Subject, func(r *reqRec) { subj = r })
+		st.clientRec(sys, 1, subject, func(r *reqRec) { subj = r })
 	})
 	for i, p := range s.Parallel {
 		wg.Add(1)
 		p := p
 		i := i
-		sim.Spawn("client", func() { defer wg.Done(); st.client(sys, 2+i, []Req{p}) })
+		sim.Spawn("client", func() { defer wg.Done(); st.client(sys, 2+i, []Req{shiftReq(p, base)}) })
 	}
 	pd := make(chan struct{})
 	go func() { wg.Wait(); close(pd) }()
@@ -244,7 +350,7 @@ func c14body(ri *simcheck.RunInfo, s C14Scenario) {
 	}
 	if subj != nil {
 		// statements of the interleaved subject request: recorded by context tag, not by position
-		interleaved = canonList(subj.Stmts)
+		interleaved = canonList(subj.Stmts, subject)
 	}
 	// (d) live tail re-executes one prepared plan every second
 	if s.TailTicks > 0 && len(sim.Crashes) == 0 {
@@ -276,7 +382,7 @@ func c14body(ri *simcheck.RunInfo, s C14Scenario) {
 	}
 
 	// follow-up statements may depend on what the database answered, so the answer is part of the identity
-	key := fmt.Sprintf("%s|%s|%s|%s|%s|%s|%s|%s|%s|%s|%+v", s.Cluster, s.Subject.Kind, s.Subject.Query, s.Subject.Start, s.Subject.End, s.Subject.Step, s.Subject.Limit, s.Subject.Direction, s.Subject.Time, s.Subject.Name, s.Subject.Result)
+	key := fmt.Sprintf("%s|%s|%s|%s|%s|%s|%s|%s|%s|%s|%+v", s.Cluster, s.Subject.Kind, s.Subject.Query, s.Subject.Start, s.Subject.End, s.Subject.Step, s.Subject.Limit, s.Subject.Direction, s.Subject.Time, s.Subject.Name, s.Subject.Result) + fmt.Sprint("|tod", s.SubjectTodS)
 	diff := func(a, b []string) (int, string, string) {
 		for i := 0; i < len(a) || i < len(b); i++ {
 			var x, y string
@@ -536,6 +642,9 @@ loop:
 	var ticks [][]string
 	for _, stt := range st.db.ForScript(&res, from) {
 		if stt.Class == "data" {
+			if os.Getenv("VERIF_DEBUG") == "sql" {
+				fmt.Fprintf(os.Stderr, "C14DEBUG tail tick %d: %s\n", len(ticks)+1, stt.SQL)
+			}
 			ticks = append(ticks, []string{canon(stt.SQL), maxTime(stt.SQL), strconv.FormatInt(stt.StartT.UnixNano(), 10)})
 		}
 	}
